@@ -613,7 +613,7 @@ func (g *Gen) Str(depth int) *E {
 }
 
 // FocusFuncs are the functions a "focus run" builds every expression around.
-var FocusFuncs = []string{"translate", "replace", "matches", "concat", "substring", "substring-before", "contains", "starts-with",
+var FocusFuncs = []string{"translate", "translate", "translate", "replace", "matches", "concat", "substring", "substring-before", "contains", "starts-with",
 	"string-join", "count", "sum", "name", "normalize-space", "string-length", "lower-case", "number", "boolean", "not", "reverse"}
 
 // ctxArg: an argument whose value depends on the context node (an attribute of
@@ -798,7 +798,13 @@ func (g *Gen) Flat() *E {
 	r := g.R
 	if r.Chance(1, 4) {
 		t := g.flatTest()
-		switch r.Intn(4) {
+		switch r.Intn(6) {
+		case 4:
+			// //name written out in full
+			return &E{Op: "path", S: "/", Kids: []*E{{Op: "step", S: "descendant-or-self", T: "node()"}, {Op: "step", S: "child", T: t, Sep: "/", Abbr: r.Chance(1, 2)}}}
+		case 5:
+			// .//name written out in full
+			return &E{Op: "path", Kids: []*E{{Op: "step", S: "descendant-or-self", T: "node()"}, {Op: "step", S: "child", T: t, Sep: "/", Abbr: r.Chance(1, 2)}}}
 		case 0:
 			return &E{Op: "path", S: "//", Kids: []*E{{Op: "step", S: "child", T: t, Abbr: true}}}
 		case 1:
